@@ -164,7 +164,7 @@ impl Builder {
 //@rwx R8 1
 //@- (SocketAddr::V6\(addr\) => \{\s*)if ((?:[^{;]*?&&\s*)?)self\s*\.transports\s*\.iter\(\)\s*\.any\(\|t\| ([^\n]*?)\)\s*\{
 //@+ \1let ghost ts0 = self.transports@; let mut it6 = self.transports.iter(); let ghost s6 = it6.remaining(); let c6 = it6.any(|t: &TransportConfig| -> (b: bool) ensures b == user_default(*t, false) { \3 }); proof { any_hint(ts0, s6, c6, false); } if \2 c6 {
-//@rwx R1 2
+//@rwx R1 *
 //@- \.map_err\(\|_\| e!
 //@+ .map_err(|_w| e!
 //@ins before 1
